@@ -76,6 +76,35 @@ func cell(c Case) string {
 	return fmt.Sprintf("%s/%s/explode=%v", c.In, st, ex)
 }
 
+// components the composed shapes share
+var sharedSchemas = M{
+	"Num":      M{"anyOf": []any{M{"type": "integer"}, M{"type": "number"}}},
+	"Bounded":  M{"allOf": []any{M{"$ref": "#/components/schemas/Num"}, M{"maximum": 100.0}}},
+	"Positive": M{"allOf": []any{M{"$ref": "#/components/schemas/Num"}, M{"minimum": 0.0}}},
+}
+
+// inlineRefs replaces references to the shared components by their content (for the reference evaluator).
+func inlineRefs(v any) any {
+	switch x := v.(type) {
+	case map[string]any:
+		if r, ok := x["$ref"].(string); ok {
+			return inlineRefs(jv.Clone(sharedSchemas[r[strings.LastIndex(r, "/")+1:]]))
+		}
+		out := M{}
+		for k, e := range x {
+			out[k] = inlineRefs(e)
+		}
+		return out
+	case []any:
+		out := make([]any, len(x))
+		for i, e := range x {
+			out[i] = inlineRefs(e)
+		}
+		return out
+	}
+	return v
+}
+
 func build(c Case) (*openapi3.T, *openapi3.Parameter, error) {
 	p := M{"name": "p", "in": c.In, "schema": json.RawMessage(c.Schema)}
 	if c.Style != "" {
@@ -103,7 +132,7 @@ func build(c Case) (*openapi3.T, *openapi3.Parameter, error) {
 			params = append(params, M{"name": "pz", "in": c.In, "schema": M{"type": "string"}}, M{"name": "zp", "in": c.In, "schema": M{"type": "string"}})
 		}
 	}
-	raw := kinx.Doc(M{path: M{"get": M{"parameters": params, "responses": M{"200": M{"description": "d"}}}}}, nil)
+	raw := kinx.Doc(M{path: M{"get": M{"parameters": params, "responses": M{"200": M{"description": "d"}}}}}, M{"schemas": jv.Clone(sharedSchemas)})
 	doc, err := kinx.Load(raw)
 	if err != nil {
 		return nil, nil, err
@@ -195,6 +224,7 @@ func check(c Case) (o h.Outcome) {
 	route, _ := kinx.Route(doc, path, "GET")
 	var rawSchema M
 	_ = json.Unmarshal([]byte(c.Schema), &rawSchema)
+	rawSchema, _ = inlineRefs(rawSchema).(M)
 	cl := cell(c)
 	o.Class("cell:%s", cl)
 	if cl == "cookie/form/explode=true" && (strings.HasPrefix(c.Shape, "array") || strings.HasPrefix(c.Shape, "object")) {
@@ -465,6 +495,10 @@ func shapesFor(c cellT) []shapeT {
 		{"allOf-integer", `{"allOf":[{"type":"integer","minimum":1},{"type":"integer","maximum":5}]}`, []string{"1", "5", "6", "0"}},
 		{"anyOf-integer", `{"anyOf":[{"type":"integer","maximum":1},{"type":"integer","minimum":5}]}`, []string{"1", "5", "3"}},
 		{"oneOf-string", `{"oneOf":[{"type":"string","maxLength":1},{"type":"string","minLength":3}]}`, []string{`"a"`, `"abc"`, `"ab"`}},
+		{"allOf-typeless-member", `{"allOf":[{"type":"integer"},{"maximum":5},{"minimum":1}]}`, []string{"1", "5", "6", "0"}},
+		// one component reached twice on routes that are not cycles (a diamond), and as a fallback
+		{"integer-diamond", `{"allOf":[{"$ref":"#/components/schemas/Bounded"},{"$ref":"#/components/schemas/Positive"}]}`, []string{"0", "5", "100", "-1", "101"}},
+		{"integer-fallback", `{"anyOf":[{"$ref":"#/components/schemas/Positive"},{"$ref":"#/components/schemas/Num"}]}`, []string{"7", "-7", "0"}},
 	}
 	if c.style != "deepObject" {
 		objVals := []string{`{"i":1,"s":"a"}`, `{"i":-3}`, `{"s":"abc","b":true}`, `{"i":1,"s":"a","b":false}`, `{"i":200,"s":"a"}`}
@@ -606,7 +640,7 @@ func gen(t *rapid.T) Case {
 			obj["i"] = 1.0
 		}
 		c.Value = jv.Canon(obj)
-	case sh.name == "integer", sh.name == "allOf-integer", sh.name == "anyOf-integer", sh.name == "integer-int32":
+	case sh.name == "integer", sh.name == "allOf-integer", sh.name == "anyOf-integer", sh.name == "integer-int32", sh.name == "integer-diamond", sh.name == "integer-fallback", sh.name == "allOf-typeless-member":
 		c.Value = jv.Canon(drawPrim("integer"))
 		if sh.name == "integer-int32" {
 			c.Value = jv.Canon(float64(rapid.SampledFrom([]int{0, 1, -1, 2147483647, -2147483648}).Draw(t, "i32")))
